@@ -102,13 +102,17 @@ func (ps *ProcessSet) StartAll(ctx context.Context) error {
 	go ps.run(ctx)
 
 	for _, process := range ps.executes {
+		// Watch the process from before it starts: a process that finishes quickly would
+		// otherwise emit its cease-flow trace before the watcher has subscribed, and the
+		// set would never be reported complete.
+		traces := process.Tracer().Subscribe()
+		ps.wg.Add(1)
+		go ps.tracerProcess(ctx, process, traces, &ps.wg)
+
 		err := process.StartAll(ctx)
 		if err != nil {
 			return fmt.Errorf("start process %s: %w", process.Id().String(), err)
 		}
-
-		ps.wg.Add(1)
-		go ps.tracerProcess(ctx, process, &ps.wg)
 	}
 
 	return nil
@@ -137,35 +141,7 @@ func (ps *ProcessSet) run(ctx context.Context) {
 		case ch := <-ps.mch:
 			switch msg := ch.(type) {
 			case throwMessage:
-				sourceRef, ok := ps.messageFlows[msg.Id]
-				if ok {
-					startFlowNode, waitingProcess, found := ps.resolveWaitingProcessAndEvent(string(sourceRef.TargetRefField))
-					if found {
-						// flow nodes
-						subTracer := tracing.NewTracer(ctx)
-						tracing.NewRelay(ctx, subTracer, ps.tracer, func(trace tracing.ITrace) []tracing.ITrace {
-							return []tracing.ITrace{trace}
-						})
-
-						process, err := NewProcess(waitingProcess, ps.definitions, append(ps.sourceOptions, WithTracer(subTracer))...)
-						if err != nil {
-							ps.tracer.Send(ErrorTrace{Error: err})
-							continue
-						}
-
-						err = process.StartWith(ctx, startFlowNode)
-						if err != nil {
-							ps.tracer.Send(ErrorTrace{Error: err})
-							continue
-						}
-						ps.wg.Add(1)
-						go ps.tracerProcess(ctx, process, &ps.wg)
-					}
-					cancel, found := ps.triggerCatch(string(sourceRef.TargetRefField))
-					if found {
-						cancel()
-					}
-				}
+				ps.handleThrow(ctx, msg)
 			}
 		case <-ps.done:
 			ps.tracer.Send(CeaseProcessSetTrace{Definitions: ps.definitions})
@@ -176,10 +152,49 @@ func (ps *ProcessSet) run(ctx context.Context) {
 	}
 }
 
-func (ps *ProcessSet) tracerProcess(ctx context.Context, process *Process, wg *sync.WaitGroup) {
+// handleThrow follows the message flow of a throw event: it instantiates the waiting target
+// process at the referenced start event, or wakes the referenced catch event.
+func (ps *ProcessSet) handleThrow(ctx context.Context, msg throwMessage) {
+	// the watcher that reported the throw has accounted for it in the wait group
+	defer ps.wg.Done()
+
+	sourceRef, ok := ps.messageFlows[msg.Id]
+	if !ok {
+		return
+	}
+	startFlowNode, waitingProcess, found := ps.resolveWaitingProcessAndEvent(string(sourceRef.TargetRefField))
+	if found {
+		// flow nodes
+		subTracer := tracing.NewTracer(ctx)
+		tracing.NewRelay(ctx, subTracer, ps.tracer, func(trace tracing.ITrace) []tracing.ITrace {
+			return []tracing.ITrace{trace}
+		})
+
+		process, err := NewProcess(waitingProcess, ps.definitions, append(ps.sourceOptions, WithTracer(subTracer))...)
+		if err != nil {
+			ps.tracer.Send(ErrorTrace{Error: err})
+			return
+		}
+
+		traces := process.Tracer().Subscribe()
+		ps.wg.Add(1)
+		go ps.tracerProcess(ctx, process, traces, &ps.wg)
+
+		err = process.StartWith(ctx, startFlowNode)
+		if err != nil {
+			ps.tracer.Send(ErrorTrace{Error: err})
+			return
+		}
+	}
+	cancel, found := ps.triggerCatch(string(sourceRef.TargetRefField))
+	if found {
+		cancel()
+	}
+}
+
+func (ps *ProcessSet) tracerProcess(ctx context.Context, process *Process, traces chan tracing.ITrace, wg *sync.WaitGroup) {
 	defer wg.Done()
 
-	traces := process.Tracer().Subscribe()
 	defer process.tracer.Unsubscribe(traces)
 
 LOOP:
@@ -198,6 +213,10 @@ LOOP:
 			case *schema.ThrowEvent:
 				eventId, ok := evt.Id()
 				if ok {
+					// The throw is work in progress of the set: account for it before this
+					// watcher can finish, otherwise the set is reported complete while the
+					// target process has not even been instantiated yet.
+					ps.wg.Add(1)
 					ps.mch <- throwMessage{Id: *eventId}
 				}
 			}
